@@ -244,6 +244,7 @@ func cmdCheck(args []string) int {
 	solverSecs := 0.0
 	var samples []any
 	var knownMatched []string
+	var slow []string
 	isKnown := func(name string) *knownFinding {
 		for i := range known {
 			if known[i].Property == *prop && known[i].Obligation == name {
@@ -323,6 +324,10 @@ func cmdCheck(args []string) int {
 		case "discharged":
 			nDis++
 			byBackend[r.Res.Solver]++
+			if r.Res.Seconds > 3 || strings.Contains(r.Res.Solver, "(2nd)") {
+				lines = append(lines, fmt.Sprintf("note: slow obligation %s (%.1fs, %s)", o.Name, r.Res.Seconds, r.Res.Solver))
+				slow = append(slow, fmt.Sprintf("%s %.1fs %s", o.Name, r.Res.Seconds, r.Res.Solver))
+			}
 			if len(samples) < 6 {
 				samples = append(samples, map[string]any{"obligation": o.Name, "kind": o.Kind, "function": o.Func, "clause": o.Clause, "solver": r.Res.Solver, "seconds": r.Res.Seconds, "at": o.Pos})
 			}
@@ -378,6 +383,7 @@ func cmdCheck(args []string) int {
 		"abstracted_functions": sortedKeys(abstracted),
 		"engine_notes": sortedKeys(notes),
 		"known_findings_matched": knownMatched,
+		"slow_obligations": slow,
 		"load_seconds": loadS, "gen_seconds": genS,
 	}
 	ev.Assumptions = []string{
